@@ -1093,10 +1093,9 @@ func (d *Data) SplitSupervoxel(v dvid.VersionID, svlabel, splitlabel, remainlabe
 		d.restoreOldBlocks(ctx, numBlocks, origBlocks)
 		return
 	}
+	// addSupervoxelSplitToMapping also appends the split record to the mutation log; logging it
+	// here a second time made every split appear twice after the log was replayed at start-up.
 	if err = addSupervoxelSplitToMapping(d, v, op); err != nil {
-		return
-	}
-	if err = labels.LogSupervoxelSplit(d, v, op); err != nil {
 		return
 	}
 	// store the new split index
